@@ -17,6 +17,20 @@ func main() {
 		os.Exit(cmdCheck(os.Args[2:]))
 	case "replay":
 		os.Exit(cmdReplay(os.Args[2:]))
+	case "cycles":
+		// debugging aid: functions of the module that can reach themselves
+		ld, err := Load("/repo", []string{"./..."})
+		if err != nil {
+			fmt.Fprintln(os.Stderr, err)
+			os.Exit(2)
+		}
+		eng := newEngine(ld)
+		for _, fn := range eng.allFuncs {
+			if inModule(fn) && fn.Parent() == nil && eng.reaches(fn, fn) {
+				fmt.Println(fn.String())
+			}
+		}
+		os.Exit(0)
 	case "modset":
 		os.Exit(cmdModset(os.Args[2:]))
 	default:
